@@ -282,7 +282,10 @@ fn gen_children(rng: &mut Rng) -> Case {
             next_b += 1;
             beh.stopped.push(Act::SendToChildren { j: rng.below(2), b: next_b });
         }
-        let spec = SpawnSpec { k: 0, strat, behaviour: beh, ..default_spec() };
+        // some actors of the tree have a bounded mailbox: a broadcast is a forced submission, once per registration,
+        // whether or not the child is busy and its mailbox full
+        let cap = if rng.chance(1, 3) { Some(rng.below(3)) } else { None };
+        let spec = SpawnSpec { k: 0, strat, cap, behaviour: beh, ..default_spec() };
         setup.push(Op::Spawn { a: i, spec, h: i });
     }
     // (child, type) registrations; type 0 = add_child
@@ -808,7 +811,11 @@ fn gen_actor(p: &Profile, rng: &mut Rng) -> Case {
                         }
                     }
                     6 => {
-                        ops.push(Op::Consume { h });
+                        if g.rng.chance(1, 3) {
+                            ops.push(Op::ConsumeSync { h });
+                        } else {
+                            ops.push(Op::Consume { h });
+                        }
                         owned[c].retain(|x| x.0 != h);
                     }
                     _ => {}
@@ -1096,9 +1103,11 @@ fn gen_small(rng: &mut Rng) -> Case {
             }
             _ => {
                 if owning && keep_root {
-                    a_ops.push(match rng.below(3) {
+                    a_ops.push(match rng.below(5) {
                         0 => Op::Join { h: 0 },
                         1 => Op::JoinPark { h: 0 },
+                        2 => Op::Consume { h: 0 },
+                        3 => Op::ConsumeSync { h: 0 },
                         _ => Op::JoinDiscard { h: 0 },
                     });
                 } else {
